@@ -80,6 +80,9 @@ func (defaultSharedInitializeCaller) Call(s *slip.Scope, args slip.List, depth i
 		return nil
 	}
 	// args[1], slot-names is ignored
+	if len(args) < 3 {
+		return nil
+	}
 	if args, ok = args[2].(slip.List); !ok {
 		return nil
 	}
